@@ -33,11 +33,12 @@ def build_form(kind, elements, subtype, form, rng):
     if form == "direct" or n == 0:
         return gg.make_array(kind, elements, subtype)
     if form == "sliced":
-        k1, k2 = int(rng.integers(1, 4)), int(rng.integers(1, 3))
+        # non-zero arrow offsets, including multiples of 8 (byte-aligned validity bitmaps)
+        k1, k2 = int(rng.choice([1, 2, 3, 5, 8, 16])), int(rng.integers(1, 3))
         pad1 = [pad_element(kind, rng) for _ in range(k1)]
         pad2 = [pad_element(kind, rng) for _ in range(k2)]
-        if rng.random() < 0.3:
-            pad1[0] = None
+        if rng.random() < 0.5:
+            pad1[int(rng.integers(k1))] = None
         big = gg.make_array(kind, pad1 + list(elements) + pad2, subtype)
         return big[k1:k1 + n]
     if form == "concat":
@@ -52,8 +53,10 @@ def build_form(kind, elements, subtype, form, rng):
         src = gg.make_array(kind, [elements[i] for i in perm], subtype)
         return src.take(inv)
     if form == "pickle":
-        k1 = int(rng.integers(0, 3))
+        k1 = int(rng.choice([0, 1, 2, 8]))
         pad1 = [pad_element(kind, rng) for _ in range(k1)]
+        if k1 and rng.random() < 0.5:
+            pad1[int(rng.integers(k1))] = None
         big = gg.make_array(kind, pad1 + list(elements), subtype)
         return pickle.loads(pickle.dumps(big[k1:]))
     raise ValueError(form)
